@@ -666,6 +666,7 @@ where
         self.inner
             .corrupted_blobs
             .store(corrupted, Ordering::Release);
+        self.reserve_old_corrupted_blob_ids().await;
 
         let next = self.inner.next_blob_name()?;
         let mut safe = self.inner.safe.write().await;
@@ -694,6 +695,7 @@ where
         self.inner
             .next_blob_id
             .store(max_blob_id.map_or(0, |i| i + 1), Ordering::Release);
+        self.reserve_old_corrupted_blob_ids().await;
 
         debug!("{} blobs successfully created", blobs.len());
         blobs.sort_by_key(Blob::id);
@@ -835,6 +837,35 @@ where
         }
 
         corrupted
+    }
+
+    /// Blobs moved to the corrupted dir in previous sessions keep their ids:
+    /// new blobs must not get an id of a quarantined blob
+    async fn reserve_old_corrupted_blob_ids(&self) {
+        let config = &self.inner.config;
+        let Some(work_dir_path) = config.work_dir() else {
+            return;
+        };
+        let corrupted_dir_path = work_dir_path.join(config.corrupted_dir_name());
+        if !corrupted_dir_path.exists() {
+            return;
+        }
+        let Ok(mut dir) = read_dir(&corrupted_dir_path).await else {
+            return;
+        };
+        let mut max_id: Option<usize> = None;
+        while let Ok(Some(file)) = dir.next_entry().await {
+            let path = file.path();
+            let is_blob = path.extension().and_then(|ext| ext.to_str()) == Some(BLOB_FILE_EXTENSION);
+            if path.is_file() && is_blob {
+                if let Ok(file_name) = blob::FileName::from_path(&path) {
+                    max_id = max_id.max(Some(file_name.id()));
+                }
+            }
+        }
+        if let Some(max_id) = max_id {
+            self.inner.next_blob_id.fetch_max(max_id + 1, Ordering::AcqRel);
+        }
     }
 
     fn should_save_corrupted_blob(error: &anyhow::Error) -> bool {
